@@ -57,7 +57,7 @@ def read_cmc_b(path):
         rf = field_int(line[cols[4]:cols[5]])
         m = re.match(r"^ *([+-]?\d+)(?=\s|$)", line[cols[5]:flagcol] if flagcol is not None else line[cols[5]:])
         wd = int(m.group(1)) if m else None          # free text may follow the width
-        fuzzy = sc is None or rf is None or wd is None or unit != unit.lstrip() or (flagcol is not None and len(line) <= flagcol)
+        fuzzy = sc is None or rf is None or wd is None or unit != unit.lstrip()
         ents.append(dict(desc=d, name=line[cols[1]:cols[2]].rstrip(" "), unit=unit, kind=tables.unit_kind(unit),
                          scale=sc, ref=rf, width=wd, fuzzy=fuzzy, line=ln + 1))
     return dict(version=-1 if version is None else version, ruler=ruler, cols=cols, flagcol=flagcol, entries=ents)
@@ -73,7 +73,7 @@ def fmt_b_line(e, cols=None, flagcol=None):
     s += ("%d" % e["scale"]).rjust(cols[4] - cols[3])
     s += ("%d" % e["ref"]).rjust(cols[5] - cols[4])
     s += " " + ("%d" % e["width"]).rjust(5)
-    if flagcol is not None:
+    if flagcol is not None and e.get("flag") != "none":        # "none": the line ends after the width field
         s = s.ljust(flagcol) + (e.get("flag") or " ")
     return s
 
@@ -182,3 +182,24 @@ def csv_d_text(entries, titles=None):
             row = ["%02d" % ((k // 1000) % 100), "Sequences", "%06d" % k, (titles or {}).get(k, "Sequence %06d" % k), "", "%06d" % m, "Element %06d" % m, "", "", "Operational"]
             out.append(",".join(csv_cell(c) for c in row))
     return "\n".join(out) + "\n"
+
+
+def stale_flag_lines(path, flagcol):
+    """Line numbers (1-based) at which a reader that keeps ONE line buffer and looks at column `flagcol` without checking
+    the length of the line would see a '-' left over from an earlier, longer line.  (Prediction of the recorded defect
+    flag_column_stale_read for lib/c12.py; not part of the oracle.)"""
+    raw = open(path, "rb").read().decode("latin-1")
+    buf = [" "] * 1024
+    out = set()
+    parts = raw.split("\n")
+    for ln, line in enumerate(parts):
+        if ln == len(parts) - 1 and line == "":
+            break
+        content = line + ("\n" if ln < len(parts) - 1 else "")
+        content = content[:255]
+        for i, c in enumerate(content):
+            buf[i] = c
+        buf[len(content)] = "\0"
+        if flagcol > len(content) and buf[flagcol] == "-":
+            out.add(ln + 1)
+    return out
